@@ -284,8 +284,30 @@ class EventHandler(abc.ABC):
 
         for prefix, uri in self.ns_map.items():
             if parent_ns_map.get(prefix) != uri:
+                self.validate_prefix(prefix, uri)
                 prefixes.append(prefix)
                 self.start_prefix_mapping(prefix, uri)
+
+    @classmethod
+    def validate_prefix(cls, prefix: str | None, uri: str) -> None:
+        """Validate a namespace declaration before it's written.
+
+        Args:
+            prefix: The namespace prefix
+            uri: The namespace URI
+
+        Raises:
+            XmlWriterError: If the prefix is not a valid name, or the
+                declaration involves the reserved xml, xmlns prefixes.
+        """
+        if not prefix:
+            return
+
+        if not namespaces.is_ncname(prefix) or prefix == "xmlns":
+            raise XmlWriterError(f"Invalid namespace prefix `{prefix}`")
+
+        if (prefix == Namespace.XML.prefix) != (uri == Namespace.XML.uri):
+            raise XmlWriterError(f"Invalid namespace declaration `{prefix}`: `{uri}`")
 
     def reset_default_namespace(self) -> None:
         """Reset the default namespace if the pending element is not qualified."""
